@@ -841,7 +841,7 @@ def malformed_y(rng):
         {"c": "py", "v": []}, {"c": "empty", "shape": [0]}, {"c": "py", "v": [1, 0, 1]}])
 
 
-def witnesses():
+def repaired_witnesses():
     """the inputs on which HistogramDensityMethod failed before its three repairs (now they must pass)"""
     A = [[float((2 * i + j) % 5) for j in range(2)] for i in range(8)]
     A1 = [[float((3 * i) % 5)] for i in range(8)]
@@ -864,6 +864,36 @@ def witnesses():
                 out.append({"mode": "inject", "det": det, "d": len(nm), "seed": 11, "calls": base,
                             "inj": {"pos": pos, "kind": "ref2", "call": two}, "plan": "witness-rows"})
     return out
+
+
+def open_witnesses():
+    """one explicit case per OPEN recorded finding, reproduced on every run"""
+    out = []
+    # S12-batch: array 6x1, then a 2x3 DataFrame (the call test_batch_validation_X_dimensions makes)
+    col = [[float(i)] for i in range(6)]
+    nxt = [[float(i) + 0.5] for i in range(6)]
+    out.append({"mode": "inject", "det": "KdqTreeBatch", "d": 1, "seed": 5, "plan": "witness-S12",
+                "calls": [{"op": "set_reference", "x": {"c": "np", "v": col}}, {"op": "update", "x": {"c": "np", "v": nxt}}],
+                "inj": {"pos": 1, "kind": "width",
+                        "call": {"op": "update", "x": {"c": "df", "v": [[1.0, 2.0, 3.0], [4.0, 5.0, 6.0]], "n": ["a", "b", "c"]}}}})
+    # HDM-proxy-rows: detect_batch=1, drift detected on a two-row batch, the next valid update is refused
+    for det, w in (("HDDDM1", 2), ("CDBD1", 1)):
+        ref = [[float((2 * i + j) % 5) for j in range(w)] for i in range(8)]
+        bs = [[[0.0, 1.0][:w], [2.0, 3.0][:w]], [[1.0, 2.0][:w], [3.0, 4.0][:w]], [[40.0, 50.0][:w], [60.0, 45.0][:w]],
+              [[41.0, 52.0][:w], [63.0, 44.0][:w]], [[1.0, 2.0][:w], [2.0, 1.0][:w]]]
+        mk = lambda c: [{"op": "set_reference", "x": {"c": c, "v": ref}}] + [{"op": "update", "x": {"c": c, "v": b}} for b in bs]
+        out.append({"mode": "mix", "det": det, "d": w, "seed": 5, "plan": "witness-proxy-rows",
+                    "calls": mk("np"), "alt": mk("py")})
+    return out
+
+
+def witnesses(ctx):
+    """hook of harness/core.py: (signature, message, case) for every open-finding witness that still fails"""
+    for case in open_witnesses():
+        obs = run_impl(case)
+        msgs = direct_check(case, obs)
+        if msgs:
+            yield signature(case, obs, msgs), msgs[0], case
 
 
 def gen_cases(ctx):
@@ -957,7 +987,7 @@ def gen_cases(ctx):
                 b = make_calls(name, hist, ["list2"] * 5, None)
                 cases.append({"mode": "mix", "det": name, "d": d, "seed": 7, "calls": a, "alt": b,
                               "plan": f"tiny-{n0}-{n1}"})
-    cases = witnesses() + cases
+    cases = repaired_witnesses() + cases
     # direct calls of _validate_y (batch variant: model only, used by no detector)
     ys = [{"c": "py", "v": 1}, {"c": "py", "v": [1]}, {"c": "py", "v": [1, 0]}, {"c": "np", "v": [[1], [0]], "dt": "i"},
           {"c": "np", "v": [[1, 0]], "dt": "i"}, {"c": "np", "v": [[1]], "dt": "i"}, {"c": "empty", "shape": [0, 1]},
